@@ -37,6 +37,7 @@ package gmqtt
 //@ ensures [C01] result.Dup == m.Dup && result.QoS == m.QoS && result.Retained == m.Retained && result.Topic == m.Topic && result.PacketID == m.PacketID && result.MessageExpiry == m.MessageExpiry && result.ContentType == m.ContentType && result.PayloadFormat == m.PayloadFormat && result.ResponseTopic == m.ResponseTopic
 //@ ensures [C01] len(result.Payload) == len(m.Payload) && (forall i int :: 0 <= i && i < len(m.Payload) ==> result.Payload[i] == m.Payload[i])
 //@ ensures [C01] m.Dup == old(m.Dup) && m.QoS == old(m.QoS) && m.Retained == old(m.Retained) && m.Topic == old(m.Topic)
+//@ ensures [C01] len(result.SubscriptionIdentifier) == len(m.SubscriptionIdentifier) && (result.SubscriptionIdentifier == nil || isfresh(result.SubscriptionIdentifier))
 //@ loop 1 invariant newMsg != nil && isfresh(newMsg) && len(newMsg.Payload) == len(m.Payload) && (forall i int :: 0 <= i && i < len(m.Payload) ==> newMsg.Payload[i] == m.Payload[i])
 //@ loop 1 invariant len(newMsg.Payload) == 0 || isfresh(newMsg.Payload)
 
@@ -51,3 +52,10 @@ package gmqtt
 //@ props C05
 //@ requires [C05] s != nil
 //@ ensures [C05] result == (s.ConnectedAt + int(s.ExpiryInterval) * 1000000000 < now)
+
+// GetFullTopicName: "$share/<group>/<filter>" for a shared subscription, the filter otherwise.
+//@ spec func fullName(s *Subscription) string = s.ShareName != "" ? concat(concat(concat("$share/", s.ShareName), "/"), s.TopicFilter) : s.TopicFilter
+//@ func (*Subscription).GetFullTopicName
+//@ props C11
+//@ requires [C11] s != nil
+//@ ensures [C11] result == fullName(s)
